@@ -173,12 +173,19 @@ def main():
     known = [k for k in load_known() if k.get('status') == 'known' and k.get('property') == pid]
     run.known = known
     run.known_hits = []
-    # a broken proof / extraction tie widens the search: thorough-size exploration under a time limit
-    run.widen = bool(info['failed'])
+    # a broken proof / extraction tie, or an edit of the modelled source files, widens the search:
+    # thorough-size exploration under a time limit
+    import pins
+    pins_changed = pins.changed(os.environ.get('VERIF_REPO', '/repo'), pid)
+    info['pins_changed'] = pins_changed
+    run.widen = bool(info['failed']) or bool(pins_changed)
     if run.widen and args.tier == 'quick':
         run.tier = 'thorough'
         run.deadline = time.time() + 300
-        run.notes.append('a theorem or the extraction no longer checks (%s): searching with thorough-size inputs for 300 s' % ', '.join(info['failed'][:4]))
+        if info['failed']:
+            run.notes.append('a theorem or the extraction no longer checks (%s): searching with thorough-size inputs for 300 s' % ', '.join(info['failed'][:4]))
+        if pins_changed:
+            run.notes.append('modelled source files differ from the pinned text (%s): exploring thorough-size inputs for up to 300 s' % ', '.join(pins_changed))
     status = 0
     verdict_lines = []
     api_broken = None
@@ -267,6 +274,7 @@ def write_evidence(pid, tier, seed, run, info, wall, status):
         'notes': info['notes'] + run.notes,
         'partial': getattr(run, 'partial', []),
         'exhaustive': getattr(run, 'exhaustive', False),
+        'source_pins_changed': info.get('pins_changed', []),
         'tie': 'correspondence-only' if info['failed'] else 'proof+extraction+correspondence' if info.get('gen_ok') else 'proof+correspondence',
         'known_findings_reproduced': run.known_hits,
     }
